@@ -1,7 +1,7 @@
 """Symbolic arena pre-state, uniform slot views, the representation invariant INV
 (assumed form with rank witnesses, proved form with unrolled walks)."""
 import z3
-from engine import S, Agg, En, VecV, Opq, UNINIT, zbool, bv
+from engine import S, Agg, En, VecV, Opq, UNINIT, zbool, bv, REPR
 
 LINKS = ['parent', 'prev', 'next', 'first', 'last']
 I16MIN = -32768
@@ -26,8 +26,16 @@ def opt_nodeid(some, idx, stamp):
     return En('Option', b2d(some), {0: (), 1: (mk_id(idx, stamp),)})
 
 
-def opt_usize(some, v):
-    return En('Option', b2d(some), {0: (), 1: (S(v, 'usize'),)})
+def opt_usize(some, v, nonzero=False):
+    # `nonzero`: the field is declared Option<NonZeroUsize> in the current source (representation follows the code)
+    inner = Agg('NonZero', (S(v, 'usize'),)) if nonzero else S(v, 'usize')
+    return En('Option', b2d(some), {0: (), 1: (inner,)})
+
+
+def usize_of(v):
+    """S usize or NonZero wrapper -> z3 term"""
+    if isinstance(v, Agg) and v.ty == 'NonZero': v = v.f[0]
+    return zb(v)
 
 
 def zb(s):
@@ -75,10 +83,10 @@ class SymArena:
         for i in range(self.N):
             links = [opt_nodeid(self.some[L][i], self.idx[L][i], self.lst[L][i]) for L in LINKS]
             dd = S(z3.If(self.live(i), BV64(0), BV64(1)), 'isize')
-            data = En('NodeData', dd, {0: (Opq(self.data[i]),), 1: (opt_usize(self.nf_some[i], self.nf_idx[i]),)})
+            data = En('NodeData', dd, {0: (Opq(self.data[i]),), 1: (opt_usize(self.nf_some[i], self.nf_idx[i], REPR['nf_nonzero']),)})
             nodes.append(Agg('Node', links + [Agg('NodeStamp', (S(self.stamp[i], 'i16'),)), data]))
         vec = VecV(S(self.N, 'usize'), self.N + spare, nodes + [UNINIT] * spare)
-        return Agg('Arena', (vec, opt_usize(self.ff_some, self.ff_idx), opt_usize(self.lf_some, self.lf_idx)))
+        return Agg('Arena', (vec, opt_usize(self.ff_some, self.ff_idx, REPR['free_ends_nonzero']), opt_usize(self.lf_some, self.lf_idx, REPR['free_ends_nonzero'])))
 
     def sel(self, arr, idx1): return sel(arr, idx1)
 
@@ -189,12 +197,12 @@ class View:
             if 1 in d.pay:
                 nf = d.pay[1][0]
                 self.nf_some.append(zb(S(nf.d.v, 'isize')) == 1)
-                self.nf_idx.append(zb(nf.pay[1][0]) if 1 in nf.pay else BV64(0))
+                self.nf_idx.append(usize_of(nf.pay[1][0]) if 1 in nf.pay else BV64(0))
             else:
                 self.nf_some.append(z3.BoolVal(False)); self.nf_idx.append(BV64(0))
         ff, lf = arena_val.f[1], arena_val.f[2]
-        self.ff_some = zb(S(ff.d.v, 'isize')) == 1; self.ff_idx = zb(ff.pay[1][0]) if 1 in ff.pay else BV64(0)
-        self.lf_some = zb(S(lf.d.v, 'isize')) == 1; self.lf_idx = zb(lf.pay[1][0]) if 1 in lf.pay else BV64(0)
+        self.ff_some = zb(S(ff.d.v, 'isize')) == 1; self.ff_idx = usize_of(ff.pay[1][0]) if 1 in ff.pay else BV64(0)
+        self.lf_some = zb(S(lf.d.v, 'isize')) == 1; self.lf_idx = usize_of(lf.pay[1][0]) if 1 in lf.pay else BV64(0)
 
     @staticmethod
     def from_dict(d):
